@@ -191,3 +191,14 @@ Proof.
   remember (step s0 (OCmd E_adm t_cross)) as r eqn:R. vm_compute in R. subst r.
   eexists. split; [simpl; right; right; left; reflexivity|]. split; vm_compute; reflexivity.
 Qed.
+
+(* the old witnesses of C02.F44: `user hostmask add root` without password, from an unregistered sender, on an owner
+   account without password (unhashed, as after a reload) and on one whose password is the empty string: refused *)
+Definition s_nopw : st :=
+  St [Acct (C16.Model.User (Some 1%Z) [114; 111; 111; 116] false false false [] [OWNER] [[114; 33; 114; 64; 104]] [] []) []] 1%Z None [] [].
+Definition s_emptypw : st :=
+  St [Acct (C16.Model.User (Some 1%Z) [114; 111; 111; 116] false false true (enc_pw []) [OWNER] [[114; 33; 114; 64; 104]] [] []) []] 1%Z None [] [].
+Definition t_hostadd_root : str := [117; 115; 101; 114; 32; 104; 111; 115; 116; 109; 97; 115; 107; 32; 97; 100; 100; 32; 114; 111; 111; 116].
+Example f44_refused :
+  effect_of s_nopw E_anon t_hostadd_root = ENone /\ effect_of s_emptypw E_anon t_hostadd_root = ENone.
+Proof. vm_compute. auto. Qed.
